@@ -117,7 +117,7 @@ def resolve(sym, accessor, trailing_slash, locs, bad, root_name="root", remote=F
     sym.check("loaded-once-then-reused", again is obj)
 
 
-def resolve_after_change(sym, accessor, remote):
+def resolve_after_change(sym, accessor, remote, dirs_fixed=True):
     """what a Compose object resolves depends on what is stored when it is opened and read - not on what an earlier object in the
     same process saw at the same location"""
     entries = {"": None}
@@ -131,6 +131,10 @@ def resolve_after_change(sym, accessor, remote):
             tag += 1
             entries[os.path.join(md, name)] = make_doc("info" if name == "composeinfo.json" else accessor, tag)
     root, bits = sym.symbolic_fs(entries, "root", remote)
+    dirs = [rel for rel, content in entries.items() if content is None]
+    if dirs_fixed:
+        for rel in dirs:
+            sym.assume(bits[rel])          # quick tier: the directories are there all along, the files come and go
     first = productmd.compose.Compose(root)
     try:
         getattr(first, accessor)
@@ -138,6 +142,9 @@ def resolve_after_change(sym, accessor, remote):
         pass
     sym.cover("opened")
     bits = sym.fs_change()          # files appear and disappear (e.g. a compose that is still being written)
+    if dirs_fixed:
+        for rel in dirs:
+            sym.assume(bits[rel])
     c = productmd.compose.Compose(root)
     if bits[os.path.join("compose", "metadata", "composeinfo.json")]:
         base = os.path.join(root, "compose")
@@ -248,7 +255,7 @@ def jobs(tier, seed):
     for ai, accessor in enumerate(FILES):
         for remote in (False, True):
             if big or (ai + remote + seed) % 2 == 0 or accessor == "images":
-                out.append({"harness": "resolve_after_change", "params": {"accessor": accessor, "remote": remote}})
+                out.append({"harness": "resolve_after_change", "params": {"accessor": accessor, "remote": remote, "dirs_fixed": not big}})
     for first, second in (("images", "rpms"), ("rpms", "images"), ("images", "modules"), ("rpms", "info"), ("modules", "rpms")):
         for loc in ("", "compose"):
             out.append({"harness": "resolve_pair", "params": {"first": first, "second": second, "loc": loc}})
